@@ -101,6 +101,8 @@ func (o op) String() string {
 		return fmt.Sprintf("request(cookie%d spelled in upper case)", o.A)
 	case "out":
 		return fmt.Sprintf("logout(cookie%d)", o.A)
+	case "out2":
+		return fmt.Sprintf("logout(cookie%d followed by a second, unknown session cookie)", o.A)
 	case "adv":
 		return fmt.Sprintf("advance(%ds)", o.D)
 	}
@@ -127,8 +129,9 @@ func advances(cf cfg) []int64 {
 //	T (throttle): logins from both addresses, the clock steps around the
 //	              1-minute window and the block period, restart; 10 operations.
 //	S (sessions): one login, request/logout with both cookies, a request with
-//	              the first cookie spelled in upper case, the clock steps
-//	              around the day boundary, the TTL and a day, restart; 11 operations.
+//	              the first cookie spelled in upper case, a logout carrying the
+//	              first cookie followed by a second unknown one, the clock steps
+//	              around the day boundary, the TTL and a day, restart; 12 operations.
 func alphabet(pass string, cf cfg) (ops []op) {
 	c := cf.String()
 	adv := func(ds ...int64) {
@@ -151,7 +154,7 @@ func alphabet(pass string, cf cfg) (ops []op) {
 		ops = append(ops, op{K: "good", A: 0, C: c})
 		two("req")
 		two("out")
-		ops = append(ops, op{K: "requ", A: 0, C: c})
+		ops = append(ops, op{K: "requ", A: 0, C: c}, op{K: "out2", A: 0, C: c})
 		adv(59, 61, cf.TTL-1, cf.TTL+1, day)
 		ops = append(ops, op{K: "restart", C: c})
 	default:
@@ -515,14 +518,19 @@ func (rs *runState) apply(o op, idx int) (res stepResult) {
 			return res
 		}
 		res.outcome = "requ:rejected"
-	case "req", "out":
+	case "req", "out", "out2":
 		v, phase := m.judge(o.A)
 		var ran bool
 		var status int
-		if o.K == "req" {
+		switch o.K {
+		case "req":
 			status, ran = home.VerifC12Request(rs.token(o.A))
-		} else {
+		case "out":
 			status, ran = home.VerifC12Logout(rs.token(o.A))
+		default:
+			// The first cookie is the one that authenticates the request; it is
+			// that session the logout ends.
+			status, ran = home.VerifC12Logout(rs.token(o.A), fakeToken(7))
 		}
 		if (v == must && !ran) || (v == mustNot && ran) {
 			got := "rejected"
@@ -539,7 +547,7 @@ func (rs *runState) apply(o op, idx int) (res stepResult) {
 			return res
 		}
 		m.observe(o.A, ran, phase)
-		if o.K == "out" && ran && o.A < len(m.sess) {
+		if o.K != "req" && ran && o.A < len(m.sess) {
 			m.sess[o.A].loggedOut = true
 		}
 		okS := "rejected"
@@ -642,6 +650,31 @@ func (rs *runState) key(lastBlocked, throttleOnly bool) (k string, vkey, vdesc s
 	}
 	if vk, vd := dumpS("D", db); vk != "" {
 		return "", vk, vd
+	}
+	if !throttleOnly {
+		// "This remains true after a restart": the running process judges a
+		// token by the table in memory, the restarted one by the file.  An
+		// unexpired session must be in both, with one expiry.
+		exp := func(l []home.VerifC12Session) map[string]uint32 {
+			x := map[string]uint32{}
+			for _, s := range l {
+				if int64(s.Expire) > m.now {
+					x[s.Token] = s.Expire
+				}
+			}
+			return x
+		}
+		me, de := exp(mem), exp(db)
+		for t, e := range me {
+			if d, ok := de[t]; !ok || d != e {
+				return "", "session:file-differs-from-memory", fmt.Sprintf("cookie%d: the running process holds the session until %d (now %d), sessions.db until %d (0 = not stored): a restart between the two instants changes whether the token authenticates", rs.tokIdx[t], e, m.now, d)
+			}
+		}
+		for t, d := range de {
+			if _, ok := me[t]; !ok {
+				return "", "session:file-differs-from-memory", fmt.Sprintf("cookie%d: sessions.db holds the session until %d (now %d), the running process does not hold it: a restart revives the token", rs.tokIdx[t], d, m.now)
+			}
+		}
 	}
 	sb.WriteString("|T")
 	for a := range m.tab {
